@@ -709,6 +709,7 @@ impl TransformerContext {
         // The element keeps the evaluated id, so that an expression in it is
         // evaluated once rather than again with the element's other attributes.
         el.set_attr("id", &id);
+        el.id_evaluated = true;
         self.update_element(el);
         self.pending_ids.insert(id.clone());
         Some(id)
